@@ -756,9 +756,13 @@ def coq_answer(a):
     raise ValueError(k)
 
 
+HELPER_TIME_LIMIT = 30     # seconds one in-process call of an action method may take
+
+
 class _Runaway(BaseException):
-    """Raised by the parser oracle when the shrink loop runs longer than its number of lines
-    (a BaseException, so that the loop's own `except Exception` cannot swallow it)."""
+    """Raised by the parser oracle when the shrink loop runs longer than its number of lines, and
+    by the alarm when an action method does not return (a BaseException, so that the code's own
+    `except Exception` cannot swallow it)."""
 
 
 class ImplHelpers:
@@ -784,12 +788,26 @@ class ImplHelpers:
         app, llm = self.apps[mode]
         llm.every = [text]
         llm.subst = {}
+        import signal
+
+        def on_alarm(signum, frame):
+            raise _Runaway()
+
+        old = signal.signal(signal.SIGALRM, on_alarm)
+        signal.alarm(HELPER_TIME_LIMIT)
         try:
             return ("ok", self.loop.run_until_complete(coro_fn(app.llm_generation_actions, app)))
         except _Runaway:
+            # the loop is left in an undefined state: use a fresh one
+            import asyncio
+
+            self.loop = asyncio.new_event_loop()
             return ("raise", "NonTermination")
         except Exception as e:
             return ("raise", type(e).__name__)
+        finally:
+            signal.alarm(0)
+            signal.signal(signal.SIGALRM, old)
 
     def call(self, h, s, s2=None, lens=None):
         from nemoguardrails.actions.llm import utils as U
